@@ -935,6 +935,49 @@ def run(only=None):
             rep.internal_error("token_lookup_api: no lookup produced a token that round-trips (vacuous)")
         s.done()
 
+    # 6. the lookup API as the first thing a process does with the library
+    if want("lookup_api_first_in_a_new_interpreter"):
+        import subprocess as _sp
+        import sys as _sys
+        import json as _json
+        cases6 = [c for c in lookup_cases() if isinstance(c[2], int) and all(isinstance(k, int) for k in c[4])]
+        s = rep.sub("lookup_api_first_in_a_new_interpreter",
+                    "every implemented token of both families (by id, attributes by id) assembled through get_token and serialised in brand-new "
+                    "interpreters whose first use of the library is that lookup, in two orders (requests first / reports first): same octets "
+                    "as in this process, and the octets parse back (stage 2) here")
+        here = [lookup_stage1(c) for c in cases6]
+        code = ("import sys\nsys.path.insert(0, %r)\nfrom mc import env\nimport checks.c15_mbxml as c\nimport json\n"
+                "cases = [x for x in c.lookup_cases() if isinstance(x[2], int) and all(isinstance(k, int) for k in x[4])]\n"
+                "order = sorted(range(len(cases)), key=lambda i: (cases[i][0] != %s, i))\n"
+                "out = {}\n"
+                "for i in order:\n"
+                "    r = c.lookup_stage1(cases[i])\n"
+                "    out[i] = [r[0], r[3].hex() if r[0] == 'token' else str(r[1])[:120]]\n"
+                "print('RESULT:' + json.dumps(out))\n")
+        for first in (True, False):
+            r = _sp.run([_sys.executable] + (["-O"] if _sys.flags.optimize else []) + ["-B", "-c", code % (env.VERIF, first)],
+                        capture_output=True, text=True, cwd=env.VERIF)
+            got = None
+            for line in r.stdout.splitlines():
+                if line.startswith("RESULT:"):
+                    got = _json.loads(line[7:])
+            if got is None:
+                rep.internal_error(f"new interpreter (requests_first={first}) gave no result: {r.stderr[-300:]}")
+                continue
+            for i, c in enumerate(cases6):
+                h_ = here[i]
+                want_ = [h_[0], h_[3].hex() if h_[0] == "token" else str(h_[1])[:120]]
+                case = {"kind": "lookup", "is_request": c[0], "document_id": c[1], "key": c[2], "attributes": [[k, v] for k, v in c[4].items()], "requests_first": first}
+                if got.get(str(i)) != want_ and not (want_[0] != "token" and got.get(str(i), [None])[0] == want_[0]):
+                    s.violation("lookup_result_differs_when_it_is_the_first_use_of_the_library_in_a_process", {**case, "here": want_, "there": got.get(str(i))},
+                                "a token assembled through the lookup API serialises differently (or fails) in a new interpreter that has not parsed anything yet")
+                elif h_[0] == "token":
+                    o2 = lookup_stage2((c[1], c[3], h_[1], h_[2], h_[3]))[0]
+                    if o2 != "ok":
+                        s.violation("first_use_octets_do_not_parse_back:" + o2, case)
+                s.case(nontrivial=True, calls=2, outcome=h_[0].split(":")[0], sample=case if len(s.samples) < 1 else None)
+        s.done()
+
     rep.bounds = {
         "sequence_length": "0..3 tokens exhaustively (thorough; quick 0..2), 11/12-token documents for the value sweeps",
         "documents_per_buffer": "1..4 (thorough; quick 1..3)",
